@@ -1386,6 +1386,78 @@ def G_cursor(ctx, prog, lem, site):
     return None
 
 
+def _masked_below(prog, fn, op, bound, depth=3):
+    """the integer operand is `x & m` with a constant 0 <= m < bound (possibly cast, copied, or returned as such by a crate-private helper
+    on all its paths): its value is in 0..=m"""
+    pl = op_place(op)
+    if pl is None or not is_local(pl) or depth <= 0:
+        return None
+    sd = fn.single_def(pl['l'])
+    if sd is None:
+        return None
+    if sd[1] == 'term':
+        t = sd[2]
+        h = prog.by_path.get(t['callee']['def']) if (t['k'] == 'call' and t['callee'].get('local')) else None
+        if h is None or h.kind == 'Closure':
+            return None
+        rets = []
+        for blk in h.blocks:
+            if blk['cleanup'] or blk['term']['k'] != 'return':
+                continue
+            rets.append(blk['id'])
+        if not rets:
+            return None
+        # every definition of the helper's return place must be masked
+        ms = []
+        for (rb, idx, rv) in h.defs().get(0, []):
+            if idx == 'term':
+                return None
+            m = _masked_rvalue(prog, h, rv, bound, depth - 1)
+            if m is None:
+                return None
+            ms.append(m)
+        return max(ms) if ms else None
+    return _masked_rvalue(prog, fn, sd[2], bound, depth)
+
+
+def _masked_rvalue(prog, fn, rv, bound, depth):
+    if rv['k'] == 'binop' and rv['op'] == 'BitAnd':
+        for x in (rv['a'], rv['b']):
+            m = const_value(x)
+            if isinstance(m, int) and not isinstance(m, bool) and 0 <= m < bound:
+                return m
+        return None
+    if rv['k'] in ('cast', 'use') and rv.get('op') is not None:
+        return _masked_below(prog, fn, rv['op'], bound, depth - 1)
+    return None
+
+
+def G_shiftmask(ctx, prog, lem, site):
+    """`x << n` / `x >> n` whose overflow check is `n < BITS` with n = `y & m`, m < BITS (the masking wrapping_shl does itself)"""
+    fn = site['fn']
+    t = site['term']
+    if t['k'] != 'assert' or t.get('kind') != 'Overflow':
+        return None
+    cp = op_place(t['cond'])
+    if cp is None or not is_local(cp):
+        return None
+    sd = fn.single_def(cp['l'])
+    if sd is None or sd[1] == 'term' or sd[2]['k'] != 'binop' or sd[2]['op'] != 'Lt':
+        return None
+    bits = const_value(sd[2]['b'])
+    if not isinstance(bits, int) or bits not in (8, 16, 32, 64, 128):
+        return None
+    # the checked value must be what the shift in the continuation uses
+    tgt = fn.blocks[t['target']]
+    shifts = [st for st in tgt['stmts'] if st['k'] == 'assign' and st['rv']['k'] == 'binop' and st['rv']['op'] in ('Shl', 'Shr', 'ShlUnchecked', 'ShrUnchecked')]
+    if not shifts:
+        return None
+    m = _masked_below(prog, fn, sd[2]['a'], bits)
+    if m is None:
+        return None
+    return 'shift amount is masked with %d < %d (what wrapping_shl / wrapping_shr do themselves): the overflow check cannot fail' % (m, bits)
+
+
 def G_utf8buf(ctx, prog, lem, site):
     """char::encode_utf8(c, buf) where buf is a whole fixed-size array of at least 4 bytes: every char encodes to at most 4 bytes"""
     fn = site['fn']
@@ -1444,4 +1516,4 @@ def G_cutoff(ctx, prog, lem, site):
     return 'all %d paths of one loop iteration slice at a constant cutoff <= the number of partial tokens proven present' % len(paths)
 
 
-GUARDS = [G_constarith, G_arity, G_tuplelen, G_nonempty, G_stackpop, G_afterpush, G_enough, G_discr, G_lensum, G_constinf, G_radix, G_fnptr, G_fnptr2, G_cursor, G_utf8buf, G_cutoff]
+GUARDS = [G_constarith, G_arity, G_tuplelen, G_nonempty, G_stackpop, G_afterpush, G_enough, G_discr, G_lensum, G_constinf, G_radix, G_fnptr, G_fnptr2, G_cursor, G_utf8buf, G_shiftmask, G_cutoff]
